@@ -27,7 +27,7 @@ def corpus(tier, rng):
     specs += families.accel_specs(stripped=True, names=["demo"])
     specs += sample(hwfamily.gen_hw, rng, 2 if q else 20)
     specs += sample(families.gen_occ, rng, 2 if q else 20) + sample(families.gen_shape, rng, 1 if q else 20) + sample(families.gen_flat, rng, 1 if q else 15)
-    specs += sample(families.gen_cascade, rng, 1 if q else 15)
+    specs += sample(families.gen_cascade, rng, 1 if q else 15) + sample(families.gen_flat3, rng, 3 if q else 12)
     return specs
 
 
